@@ -425,7 +425,7 @@ func (fr *Frame) nilGoal(v ssa.Value, t Term) Term {
 		return "true"
 	}
 	if p, ok := fr.vc.prov[t]; ok {
-		goal = Or(goal, Eq(t, p))
+		goal = Or(goal, p)
 	}
 	return goal
 }
@@ -490,7 +490,7 @@ func (fr *Frame) mapUpdate(st *State, x *ssa.MapUpdate) {
 		g := Not(Eq(m, "nilref"))
 		if !fr.trustedNonNil(x.Map) {
 			if p, ok := fr.vc.prov[m]; ok {
-				g = Or(g, Eq(m, p))
+				g = Or(g, p)
 			}
 			vc.oblig(fr, st, "nil-map", "", describe(x.Map, 0), g, x.Pos())
 		}
@@ -533,6 +533,7 @@ func (fr *Frame) valueInstr(st *State, v ssa.Value) {
 		}
 		r := vc.alloc(st, fr.prefix+nm)
 		fr.vals[x] = r
+		vc.trusted[r] = true
 		if at, ok := types.Unalias(et).Underlying().(*types.Array); ok {
 			// array storage: elements zeroed
 			for i := int64(0); i < at.Len() && i < 16; i++ {
@@ -589,14 +590,17 @@ func (fr *Frame) valueInstr(st *State, v ssa.Value) {
 	case *ssa.FieldAddr:
 		fr.derefOblig(st, x.X, describe(x, 0), x.Pos())
 		pt := x.X.Type().Underlying().(*types.Pointer).Elem()
-		fr.define(x, vc.fieldAddr(fr.val(x.X), pt, x.Field))
+		vc.trusted[fr.define(x, vc.fieldAddr(fr.val(x.X), pt, x.Field))] = true
 	case *ssa.Field:
 		s := vc.sortOf(x.X.Type())
 		if isTimeTime(x.X.Type()) {
 			fr.freshVal(x)
 			break
 		}
-		fr.define(x, sx(fmt.Sprintf("%s_f%d", s, x.Field), fr.val(x.X)))
+		n := fr.define(x, sx(fmt.Sprintf("%s_f%d", s, x.Field), fr.val(x.X)))
+		if vc.trusted[fr.val(x.X)] {
+			vc.trusted[n] = true // field of a trusted (entry) struct value
+		}
 	case *ssa.IndexAddr:
 		fr.indexAddr(st, x)
 	case *ssa.Index:
@@ -722,8 +726,7 @@ func (fr *Frame) unop(st *State, x *ssa.UnOp) {
 		sort := vc.sortOf(et)
 		if sort == "Ref" || sort == "Val" {
 			// provenance: the untouched entry-state value at this address
-			entryVal := sx("select", vc.memInit(vc.memKey(et), "(Array Ref "+sort+")"), a)
-			fr.vc.prov[name] = entryVal
+			fr.vc.prov[name] = vc.entryTrusted(vc.memKey(et), sort, name, a)
 		}
 		vc.wf(st, name, et)
 	case token.NOT:
@@ -954,7 +957,7 @@ func (fr *Frame) indexAddr(st *State, x *ssa.IndexAddr) {
 		if vc.opts.Safety {
 			vc.oblig(fr, st, "index", "", describe(x.X, 0), And(sx("<=", "0", i), sx("<", i, sx("s-len", v))), x.Pos())
 		}
-		fr.define(x, vc.elemAddr(vc.sptr(v), i))
+		vc.trusted[fr.define(x, vc.elemAddr(vc.sptr(v), i))] = true
 	case *types.Pointer:
 		at := t.Elem().Underlying().(*types.Array)
 		fr.derefOblig(st, x.X, describe(x.X, 0), x.Pos())
@@ -1062,8 +1065,16 @@ func (fr *Frame) typeAssert(st *State, x *ssa.TypeAssert) {
 	var ok, res Term
 	if isInterfaceLike(at) && !isTypeParam(at) {
 		it := at.Underlying().(*types.Interface)
-		if it.NumMethods() == 0 {
+		if it.NumMethods() == 0 || (isInterfaceLike(x.X.Type()) && !isTypeParam(x.X.Type()) && types.Implements(x.X.Type(), it)) {
+			// the static type already guarantees the methods: the assertion is a nil check
 			ok = Not(Eq(v, "nilval"))
+			if !x.CommaOk {
+				if vc.opts.Safety {
+					vc.oblig(fr, st, "nil-deref", "", describe(x, 0), fr.nilGoal(x.X, v), x.Pos())
+				}
+				fr.define(x, v)
+				return
+			}
 		} else {
 			ok = And(Not(Eq(v, "nilval")), vc.implementsPred(v, at))
 		}
